@@ -7,7 +7,7 @@ def draws(s):
     return [s.next_float().hex(), s.next_int(0, 10 ** 6), s.next_float().hex()]
 
 
-def apply(cfg, order, history=False, reuse=False, late=False, via_info=False, custom=False):
+def apply(cfg, order, history=False, reuse=False, late=False, via_info=False, custom=False, ddict=False):
     from pydsol.core.streams import MersenneTwister, SimpleStreamUpdater, StreamSeedUpdater
     streams = {}
     for name in order:
@@ -38,6 +38,10 @@ def apply(cfg, order, history=False, reuse=False, late=False, via_info=False, cu
             if k in streams:
                 info.add_seed_values(k, list(v))
         up = StreamSeedUpdater(info.get_seeds())
+    elif ddict:
+        # the seed table is a dict subclass that invents missing keys on look-up (collections.defaultdict(list))
+        import collections
+        up = StreamSeedUpdater(collections.defaultdict(list, {k: list(v) for k, v in cfg["table"].items()}))
     elif late:
         # the seed table is completed after the updater was built, through the live table the updater hands out:
         # at update time the configured seed lists are the same as in the base variant
@@ -96,6 +100,7 @@ def main():
         r["info"] = apply(cfg, names, via_info=True) if cfg["updater"] == "table" else r["base"]
         if cfg["updater"] == "table":
             r["custom"] = apply(cfg, names, custom=True)
+        r["ddict"] = apply(cfg, names, ddict=True) if cfg["updater"] == "table" else r["base"]
         if cfg["updater"] == "table":
             # what the fallback alone would do for every stream (oracle for unlisted streams)
             r["fallback"] = apply(dict(cfg, updater="simple"), names)
